@@ -1577,6 +1577,8 @@ func loopTestsScannerState(comp []*ssa.BasicBlock) bool {
 				for _, e := range x.Edges {
 					walk(e, d+1)
 				}
+			case *ssa.Extract:
+				walk(x.Tuple, d+1) // (op, ok) := helper(token)
 			}
 		}
 		walk(ifi.Cond, 0)
